@@ -197,6 +197,9 @@ func c18Run(c C18Case, base string, k int, fault string) (points []string, commi
 		if opErr == nil {
 			committed[keyA] = contentA
 		}
+		// a straggling write after the commit (a buffered writer flushing late): it may fail, it must not reach the
+		// committed block
+		_, _ = w.Write([]byte("straggler-after-commit"))
 	case "ctx-cancel":
 		cctx, cancel := context.WithCancel(ctx)
 		cancel()
